@@ -55,7 +55,8 @@ type c12Op struct {
 }
 
 type c12Hist struct {
-	Pre map[int][]byte `json:"pre,omitempty"` // pre-populated values (var index → value)
+	Pre  map[int][]byte `json:"pre,omitempty"`  // pre-populated values (var index → value)
+	Pre2 map[int][]byte `json:"pre2,omitempty"` // a second overlay handed to the same With() call: it overrides
 	Ops []c12Op        `json:"ops"`
 }
 
@@ -146,7 +147,17 @@ func c12RunHistory(c *WCase, res *WResult) {
 			m[varPath(v.Name, v.GUID.Format())] = &fstest.MapFile{Data: withAttrs(uint32(v.Attributes), val), Mode: 0o644}
 			model[c12File(vi)] = val
 		}
-		tf = tf.With(m)
+		if len(h.Pre2) > 0 {
+			m2 := fstest.MapFS{}
+			for vi, val := range h.Pre2 {
+				v := c12Vars[vi]
+				m2[varPath(v.Name, v.GUID.Format())] = &fstest.MapFile{Data: withAttrs(uint32(v.Attributes), val), Mode: 0o644}
+				model[c12File(vi)] = val
+			}
+			tf = tf.With(m, m2)
+		} else {
+			tf = tf.With(m)
+		}
 	}
 	var e *efivarfs.Efivarfs = tf.Open()
 	var ffs *fault.Fs
@@ -358,8 +369,30 @@ func checkC12(r *mon.Run) {
 				}
 			}
 		}
+		if len(h.Pre) > 0 && rng.Intn(3) == 0 {
+			// a later overlay overrides some of them, with shorter (or empty, or longer) values
+			h.Pre2 = map[int][]byte{}
+			for vi, b := range h.Pre {
+				switch rng.Intn(3) {
+				case 0:
+					if vi < 4 {
+						h.Pre2[vi] = c12db(1, 0x90).Bytes()
+					} else {
+						h.Pre2[vi] = b[:len(b)/2]
+					}
+				case 1:
+					if vi >= 4 {
+						h.Pre2[vi] = append(append([]byte(nil), b...), 1, 2, 3)
+					}
+				}
+			}
+			r.Count("stores_created_with_overriding_overlays", 1)
+		}
 		last := map[int]int{}
 		for vi, b := range h.Pre {
+			last[vi] = len(b)
+		}
+		for vi, b := range h.Pre2 {
 			last[vi] = len(b)
 		}
 		steps := 1 + rng.Intn(30)
